@@ -122,7 +122,8 @@ PROPS = {
         modules=["Fuota.Props.C08"],
         suites=[dict(name="d5s", cfg="matrix", keys=["ops"]),
                 dict(name="d5m", cfg="matrix", keys=["ops"]),
-                dict(name="d6", cfg="matrix", keys=["ops"])],
+                dict(name="d6", cfg="matrix", keys=["ops"]),
+                dict(name="d5r", cfg="matrix", keys=["ops"])],
         rule="one evaluation = one API call (start / fragment / check / recover / cancel / mark) with the complete log "
              "of its erase and program operations (slot, offset, length, payload digest); sessions over random "
              "geometries incl. the last slot of the device and loss beyond capacity, malformed inputs, arbitrary flash "
